@@ -143,13 +143,30 @@ func closed(t reflect.Type, tm map[string]reflect.Type, nm map[string]string) st
 		if !ok || got.Kind() != reflect.Slice {
 			return fmt.Sprintf("type map does not map list type name %q (of %v) to a slice type (got %v)", wire, sl, got)
 		}
-		// several Go slice types may share one wire name ([]T / []*T, []int16 / []int32):
-		// the type map must then hold one of them
-		if got != sl && nm[zoo.TypeName(got)] != wire {
-			return fmt.Sprintf("type map maps list type name %q (of %v) to %v, whose own wire name is %q", wire, sl, got, nm[zoo.TypeName(got)])
+		// []T and []*T share one wire name: the type map then holds one of the two. Nothing else may be
+		// conflated (a []int16 that comes back through []int32 is another Go type)
+		if got != sl && (nm[zoo.TypeName(got)] != wire || !samePointerFree(got, sl)) {
+			return fmt.Sprintf("type map maps list type name %q (of %v) to %v (wire name %q): not the same Go type, and not its []T / []*T twin", wire, sl, got, nm[zoo.TypeName(got)])
 		}
 	}
 	return ""
+}
+
+// samePointerFree: the two slice types differ at most in pointers ([]T / []*T / [][]*T ...).
+func samePointerFree(a, b reflect.Type) bool {
+	for i := 0; i < 64; i++ {
+		for a.Kind() == reflect.Ptr {
+			a = a.Elem()
+		}
+		for b.Kind() == reflect.Ptr {
+			b = b.Elem()
+		}
+		if a.Kind() != reflect.Slice || b.Kind() != reflect.Slice || a.Name() != "" || b.Name() != "" {
+			return a == b
+		}
+		a, b = a.Elem(), b.Elem()
+	}
+	return false
 }
 
 func rootIface(t reflect.Type) bool {
@@ -365,11 +382,11 @@ func TestC16(t *testing.T) {
 	cfgs["sparse"] = sparse
 	check(t, "C16", func(rt *rapid.T, c *caseInfo) {
 		typ := c16Types[rapid.IntRange(0, len(c16Types)-1).Draw(rt, "type")]
-		fill := rapid.SampledFrom([]string{"zero", "zero", "sparse", "populated"}).Draw(rt, "fill")
+		fill := rapid.SampledFrom([]string{"zero", "zero", "sparse", "populated", "nil-pointer"}).Draw(rt, "fill")
 		byPtr := rapid.Bool().Draw(rt, "byPointer")
 		var w reflect.Value // *T
 		switch fill {
-		case "zero":
+		case "zero", "nil-pointer":
 			w = reflect.New(typ)
 		default:
 			g := zoo.NewG(rt, cfgs[fill])
@@ -379,6 +396,13 @@ func TestC16(t *testing.T) {
 		witness := w.Interface()
 		if !byPtr || typ.Kind() != reflect.Struct {
 			witness = w.Elem().Interface()
+		}
+		if fill == "nil-pointer" {
+			// the emptiest witness of a type: a typed nil pointer
+			if typ.Kind() != reflect.Struct {
+				rt.Skip("a nil pointer witness is used for struct types")
+			}
+			witness = reflect.Zero(reflect.PtrTo(typ)).Interface()
 		}
 		c.set("type", typ.String())
 		c.set("fill", fill)
@@ -408,7 +432,7 @@ func TestC16(t *testing.T) {
 		r.Eval()
 		// the maps extracted from a value carry that value itself, whatever dynamic types
 		// its interface slots hold
-		if fill != "zero" {
+		if fill != "zero" && fill != "nil-pointer" {
 			if _, perr := zoo.Project(witness, nil); perr == nil {
 				if err := roundTripWith(witness, tm, copyNames(nm)); err != nil {
 					failf(rt, c, "C16 maps extracted from a %s witness of %s do not carry the witness itself: %v\n witness: %s", fill, typ.Name(), err, zoo.Describe(witness, 300))
